@@ -298,6 +298,30 @@ class ConfigSim:
                 self.fail('read.value', f'{when}: {".".join(path)} = {got!r}, expected {exp!r}',
                           path='.'.join(path), depth=len(path))
 
+    def op_construct(self, op):
+        """Creating a configuration object directly (not through load) is loading one."""
+        from AEIC.config import Config
+
+        data = deep_merge(_DEFAULTS, copy.deepcopy(op.get('kwargs', {})))
+        try:
+            if op.get('how') == 'validate':
+                Config.model_validate(copy.deepcopy(data))
+            else:
+                Config(**copy.deepcopy(data))
+        except Exception as e:  # noqa: BLE001
+            if self.state is not None:
+                self.bump('construct_refused_while_set')
+                self._check_values('after refused construction')
+                return f'refused:{type(e).__name__}'
+            self.fail('load.valid_refused', f'direct construction refused: {type(e).__name__}: {e}', kind='construct')
+        if self.state is not None:
+            self.fail('load.second_accepted', 'a second configuration object was created while one was active',
+                      kind='construct', how=op.get('how'))
+        self.state = data
+        self.bump('construct_ok')
+        self._check_values('after direct construction')
+        return 'ok'
+
     def op_reset(self, op):
         from AEIC.config import Config
 
@@ -387,6 +411,9 @@ def gen_op(rng: random.Random, sim: ConfigSim, cfg):
     w = cfg['weights']
     kinds = list(w)
     k = rng.choices(kinds, [w[x] for x in kinds])[0]
+    if k == 'load' and rng.random() < 0.12:
+        return {'op': 'construct', 'kwargs': copy.deepcopy(rng.choice(VALID_KW[:7])),
+                'how': rng.choice(['init', 'validate'])}
     if k == 'load':
         r = rng.random()
         op = {'op': 'load'}
@@ -418,6 +445,9 @@ def gen_op(rng: random.Random, sim: ConfigSim, cfg):
         if rng.random() < cfg['p_fault']:
             op['fault'] = {'k': rng.randint(0, 16), 'errno': rng.choice(['EIO', 'EACCES'])}
         return op
+    if k == 'load' and rng.random() < 0.12:
+        return {'op': 'construct', 'kwargs': copy.deepcopy(rng.choice(VALID_KW[:7])),
+                'how': rng.choice(['init', 'validate'])}
     if k == 'reset':
         return {'op': 'reset'}
     if k == 'get':
